@@ -41,6 +41,7 @@ type msg = { mfrom : int; mtype : int; mto : int; mterm : int; mindex : int; mre
 
 exception Reject of string
 exception Skip of string
+exception Torn
 
 (* ---------- per-trace state ---------- *)
 let st : gstate ref = ref (init { voters = []; learners = [] } [])
@@ -320,6 +321,12 @@ let why_str = function
   | _ -> "?"
 
 let precrash : (int, nrec) Hashtbl.t = Hashtbl.create 16
+(* nodes that came back from a crash between the entry write and the hard-state write of one Ready
+   (wal.Save writes the entries first): their log holds entries of a term above their persisted term, a
+   state outside the abstract protocol.  Abstractly such a node stays down until it has caught up with
+   that term (then it restarts in the recorded state); what it does in between is not compared, and
+   if it lets anything out (a vote, an acknowledgment, a campaign) the rest of the trace is skipped. *)
+let torn : (int, bool) Hashtbl.t = Hashtbl.create 16
 
 let restart j (r : nrec) =
   let cf = { voters = List.map nat r.voters_i; learners = List.map nat r.learners_i } in
@@ -342,8 +349,7 @@ let restart j (r : nrec) =
        | None -> false) in
     if not ok then begin
       st := saved; n_labels := saved_n;
-      if int_ (obs_lastterm r.o) > r.term then
-        raise (Skip "torn_persist_restart: the node crashed between persisting the entries and the hard state of one Ready (wal.Save writes entries first): its log holds entries of a term above its persisted term, a state outside the abstract protocol");
+      if int_ (obs_lastterm r.o) > r.term then raise Torn;
       raise (Reject (Printf.sprintf "restart of node %d refused (%s): before {%s} after {%s}" j why1 before (nrec_str r)))
     end
   end;
@@ -416,7 +422,7 @@ let init_trace (e : ev) =
    | (_, _, _, _, _, _, _, _, _, _, _, _, ents) :: _ -> boot_log := ents; boot_len := List.length ents
    | [] -> raise (Reject "no live node in the initial record"));
   e.nlines <- List.map mk_nrec e.nraw;
-  Hashtbl.reset last; Hashtbl.reset dirty; Hashtbl.reset pend_app; Hashtbl.reset precrash;
+  Hashtbl.reset last; Hashtbl.reset dirty; Hashtbl.reset pend_app; Hashtbl.reset precrash; Hashtbl.reset torn;
   let alive = List.filter (fun r -> r.alive) e.nlines in
   (match alive with
    | [] -> raise (Reject "no live node in the initial record")
@@ -455,11 +461,23 @@ let handle_event (e : ev) =
     List.iter (fun j ->
         match Hashtbl.find_opt last j with
         | Some r when r.alive ->
-          if e.kind = "restart" && j = e.en then begin
-            restart j r; check_match j r "restart";
-            let a = int_ (app_of !st (nat j)) in
-            (match Hashtbl.find_opt pend_app j with Some q -> Queue.clear q | None -> ());
-            if r.appapplied < a then do_ (L_AppRestart (nat j, nat r.appapplied))
+          if (e.kind = "restart" && j = e.en) || Hashtbl.mem torn j then begin
+            let was_torn = Hashtbl.mem torn j in
+            if was_torn && List.exists (fun m -> m.mfrom = j && (m.mtype = 5 || (m.mtype = 6 && not m.mreject) || (m.mtype = 4 && not m.mreject && m.mindex > 0))) e.slines then
+              raise (Skip "torn_persist_restart: a node that restarted with entries of a term above its persisted term (crash between the entry write and the hard-state write of wal.Save) voted, acknowledged or campaigned before it caught up with that term; this state is outside the abstract protocol");
+            if was_torn && (r.o.o_role = Candidate || r.o.o_role = Leader) then
+              raise (Skip "torn_persist_restart: a node that restarted with entries of a term above its persisted term (crash between the entry write and the hard-state write of wal.Save) campaigned before it caught up with that term; this state is outside the abstract protocol");
+            if e.kind = "restart" && j = e.en then begin
+              let a = int_ (app_of !st (nat j)) in
+              (match Hashtbl.find_opt pend_app j with Some q -> Queue.clear q | None -> ());
+              if r.appapplied < a then do_ (L_AppRestart (nat j, nat r.appapplied))
+            end;
+            if was_torn && (r.o.o_role <> Follower || int_ (obs_lastterm r.o) > r.term) then bump skipped "torn_persist_node_observations"
+            else begin
+              (try restart j r; Hashtbl.remove torn j; check_match j r "restart";
+                 if r.sendpending then Hashtbl.replace dirty j true
+               with Torn -> Hashtbl.replace torn j true; bump skipped "torn_persist_node_observations")
+            end
           end else if r.sendpending then Hashtbl.replace dirty j true
           else begin
             Hashtbl.remove dirty j;
@@ -476,7 +494,7 @@ let handle_event (e : ev) =
 
 let end_trace () =
   (* every live node without an unsent Ready must coincide with its abstract counterpart *)
-  Hashtbl.iter (fun j r -> if r.alive && not r.sendpending then check_match j r "end of trace") last;
+  Hashtbl.iter (fun j r -> if r.alive && not r.sendpending && not (Hashtbl.mem torn j) then check_match j r "end of trace") last;
   let left = Hashtbl.fold (fun _ q acc -> acc + Queue.length q) pend_app 0 in
   if left > 0 then bump skipped "applied_after_unsynced_commit_at_trace_end";
   (* the hypothesis of the membership-change theorems, evaluated on the voter lists this trace counted majorities over *)
